@@ -182,7 +182,8 @@ def final_cells(writes):
 
 
 def dec_of(m, e):
-    return Decimal(m).scaleb(e)
+    # exact (Decimal.scaleb would round to the 28 digits of the default context)
+    return Decimal((0 if m >= 0 else 1, tuple(int(ch) for ch in str(abs(m))), e))
 
 
 def render_ts(u, o):
